@@ -80,7 +80,7 @@ contract("History._move_front", source=M + "History._move_front", params={"self"
          requires=["len(changes) == 1", "len(change_list) >= 1", "changes[0] == change_list[len(change_list) - 1]", "distinct(change_list)"],
          ensures=[], loops={1: {"unroll": 1}}, inline=True,
          note="inlined into undo/redo: moving the single last element to the end leaves the list unchanged (plain undo/redo)")
-contract("History.undo", source=M + "History.undo",
+contract("History.undo", source=M + "History.undo", defaults={"change": "None", "drop": "False"},
          params={"self": "History", "change": "Opt[Change]", "drop": "Bool", "task_handle": "BaseTaskHandle"}, returns="Seq[Change]",
          requires=["is_none(change)", "0 <= faults and faults <= 1", "distinct(self._undo_list)"],
          modifies=["tree", "faults", "self._undo_list", "self._redo_list", "self.current_change"],
@@ -93,7 +93,7 @@ contract("History.undo", source=M + "History.undo",
          raises={"HistoryError": {"when": "len(self._undo_list) == 0",
                                   "ensures": ["tree == old(tree)", "self._undo_list == old(self._undo_list)", "self._redo_list == old(self._redo_list)"]},
                  "Exception": {"ensures": ["tree == old(tree)", "self._undo_list == old(self._undo_list)", "self._redo_list == old(self._redo_list)"]}})
-contract("History.redo", source=M + "History.redo",
+contract("History.redo", source=M + "History.redo", defaults={"change": "None"},
          params={"self": "History", "change": "Opt[Change]", "task_handle": "BaseTaskHandle"}, returns="Seq[Change]",
          requires=["is_none(change)", "0 <= faults and faults <= 1", "distinct(self._redo_list)"],
          modifies=["tree", "faults", "self._undo_list", "self._redo_list", "self.current_change"],
